@@ -55,6 +55,8 @@ NESTED = [
     {"deep": {"deeper": {"deepest": [0]}}},
     [],
     {},
+    {"$pytuple": [[0, 1], "fixed"]},                 # an immutable shell around a mutable value
+    {"pos": {"$pytuple": [{"xy": [2, 3]}, 4]}},
 ]
 KEYS = ["w", "color", "label", "nest", "m"]
 
@@ -64,6 +66,8 @@ def mk(spec):
     if isinstance(spec, dict):
         if set(spec) == {"$pyset"}:
             return {mk(x) for x in spec["$pyset"]}
+        if set(spec) == {"$pytuple"}:
+            return tuple(mk(x) for x in spec["$pytuple"])
         return {k: mk(v) for k, v in spec.items()}
     if isinstance(spec, list):
         return [mk(x) for x in spec]
@@ -349,11 +353,19 @@ def _poke(H, op):
         if k not in d:
             return
         v = d[k]
+    def _through_tuple(v):
+        while isinstance(v, tuple):                  # look through immutable shells
+            inner = next((x for x in v if isinstance(x, (list, dict, set, tuple))), None)
+            if inner is None:
+                return v
+            v = inner
+        return v
+    v = _through_tuple(v)
     for _ in range(op.get("depth", 0)):
         nxt = None
         if isinstance(v, dict):
             for kk in sorted(v, key=str):
-                if isinstance(v[kk], (list, dict, set)):
+                if isinstance(v[kk], (list, dict, set, tuple)):
                     nxt = v[kk]
                     break
         elif isinstance(v, list):
@@ -363,7 +375,7 @@ def _poke(H, op):
                     break
         if nxt is None:
             break
-        v = nxt
+        v = _through_tuple(nxt)
     if isinstance(v, list):
         v.append(op.get("x", 99))
     elif isinstance(v, dict):
